@@ -189,6 +189,13 @@ NAME_INJECTIVE = ForAll([S_], un(nm(S_)) == S_)
 W.axioms.append(NAME_INJECTIVE)
 W.premises = {'name_injective': NAME_INJECTIVE}
 W.contract(Contract('fn.to_single_state', [('l_states', SetSt)], ret=St, pure=lambda o: Sym(St, nm(o.l_states.term))))
+# StateNamer (fix 60ce915): get_merged / get_pair are cached and never give one name to two keys.  At the call sites the namer is
+# therefore modelled as a lazily sampled *injective* function (nm / pr2 with inverses un / up1, up2): for every execution the final
+# cache is an injective partial map, which extends to a total injective function.  That the class really behaves like this is the
+# contract of StateNamer._get, verified on its own source (contracts/fa_namer.py).
+NAMER = TRec('Namer', [('tag', TBool)])
+W.ctors['StateNamer'] = lambda eng, e, st: NAMER.make(tag=Sym(TBool, BoolVal(True)))
+W.contract(Contract('Namer.get_merged', [('self', NAMER), ('l_states', SetSt)], ret=St, pure=lambda o: Sym(St, nm(o.l_states.term))))
 SS = Const('SS', SetSt.sort())
 def nonempty(X): return Exists([r_], Select(X, r_))
 def G(ecl, Tm, S, sym): return If(ecl, EclF(Tm, StepF(Tm, S, sym)), StepF(Tm, S, sym))
@@ -291,6 +298,8 @@ up1 = Function('up1', St.sort(), St.sort()); up2 = Function('up2', St.sort(), St
 PAIR_INJECTIVE = ForAll([p, q], And(up1(pr2(p, q)) == p, up2(pr2(p, q)) == q))
 W.axioms.append(PAIR_INJECTIVE); W.premises['pair_injective'] = PAIR_INJECTIVE
 W.contract(Contract('fn.combine_state_pair', [('state0', St), ('state1', St)], ret=St,
+    pure=lambda o: Sym(St, pr2(o.state0.term, o.state1.term))))
+W.contract(Contract('Namer.get_pair', [('self', NAMER), ('state0', St), ('state1', St)], ret=St,
     pure=lambda o: Sym(St, pr2(o.state0.term, o.state1.term))))
 for cls in (ENFA, NFA, DFA):
     W.contract(Contract(f'{cls.name}.__call__', [('self', cls), ('state', St), ('symbol', Sy)], ret=SetSt,
@@ -505,3 +514,6 @@ TARGETS = {k: (_P, 'EpsilonNFA.' + k.split('.', 1)[1]) for k in
            ['ENFA._get_next_states_iterable', 'ENFA.eclose', 'ENFA.eclose_iterable', 'ENFA.accepts', 'ENFA.is_empty',
             'ENFA.reverse', 'ENFA._to_deterministic_internal', 'ENFA.remove_epsilon_transitions', 'ENFA.get_intersection',
             'ENFA.copy', 'ENFA.get_complement', 'ENFA.is_deterministic', 'ENFA.get_difference']}
+
+# contracts of this world that are verified from their own source in another module
+VERIFIED_ELSEWHERE = {'Namer.get_merged': 'contracts.fa_namer (StateNamer._get)', 'Namer.get_pair': 'contracts.fa_namer (StateNamer._get)'}
